@@ -4,7 +4,7 @@ open Lean Proto TarExtract
 
 /-
 requests
- {"op":"extract", "setup":bool, "cfg":{"fuel":n,"canon":b,"parent":b,"lnk":0|1|2},
+ {"op":"extract", "setup":bool, "cfg":{"fuel":n,"current":true} (dispatch of the current source, Cfg.current) | {"fuel":n,"nofilter":b,"canon":b,"parent":b,"lnk":0|1|2},
   "names":[{"p":[comp..],"t":"dir","mode":n} | {"p":[..],"t":"ref","ino":n}],
   "inodes":[{"ino":n,"t":"file","data":s,"mode":n} | {"ino":n,"t":"sym","target":s,"mode":n} | {"ino":n,"t":"fifo"|"chr","mode":n}],
   "next":n, "dest":[comp..], "audit":[comp..], "vsn": s|null,
@@ -21,7 +21,9 @@ def pathOf (j : Json) (k : String) : List TarExtract.Name := (strList (j.getObjV
 
 def cfgOf (j : Json) : Cfg :=
   let c := j.getObjValD "cfg"
-  { fuel := getNat c "fuel", canonNames := getBool c "canon", parentCheck := getBool c "parent", lnkCheck := getNat c "lnk" }
+  if getBool c "current" then Cfg.current (getNat c "fuel") else
+  { fuel := getNat c "fuel", filter := !(getBool c "nofilter"), canonNames := getBool c "canon", parentCheck := getBool c "parent",
+    lnkCheck := getNat c "lnk" }
 
 def fsOf (j : Json) : FS :=
   let names := (getArr j "names").filterMap fun e =>
@@ -57,7 +59,8 @@ def memberJson (m : Member) : Json :=
 def errName : Err → String
   | .unsupportedArtifact => "unsupportedArtifact" | .invalidHardLink => "invalidHardLink" | .unknownFile => "unknownFile"
   | .filter => "filter" | .filterName => "filterName" | .filterParent => "filterParent" | .filterLink => "filterLink"
-  | .oserror => "oserror" | .keyerror => "keyerror" | .unsupported => "unsupported"
+  | .oserror => "oserror" | .keyerror => "keyerror" | .streamerror => "streamerror" | .internal => "internal"
+  | .unsupported => "unsupported"
 
 def pathJson (p : Path) : Json := Json.arr (p.map fun c => Json.str (String.ofList c)).toArray
 
